@@ -449,6 +449,8 @@ def rule_fitparse(run):
     def origin(e, depth=0):
         """'fmt' if the expression is a % conversion (or a local bound only to such), else the offending node"""
         if isinstance(e, ast.BinOp) and isinstance(e.op, ast.Mod): return 'fmt'
+        if isinstance(e, ast.JoinedStr) and len(e.values) == 1 and isinstance(e.values[0], ast.FormattedValue): return 'fmt'
+        if isinstance(e, ast.Call) and isinstance(e.func, ast.Name) and e.func.id == 'format' and e.args and norm(e.args[0]) == fi.params[0]: return 'fmt'
         if isinstance(e, ast.Call) and isinstance(e.func, ast.Name) and e.func.id in ('str', 'repr') and len(e.args) == 1 and norm(e.args[0]) == fi.params[0]: return 'fmt'
         if isinstance(e, ast.Call) and isinstance(e.func, ast.Attribute) and e.func.attr == 'format' and isinstance(e.func.value, ast.Constant): return 'fmt'
         if isinstance(e, ast.Name) and depth < 3:
